@@ -11,7 +11,9 @@ SPEC = {
         "AM.Trunc.truncate_bytes_panics_old", "AM.Trunc.truncate_bytes_f6_repaired", "AM.Trunc.truncBytesOld_agrees",
     ],
     "engines": [
+        {"name": "retry", "pkg": "./retry", "search_cases": 12000},
         {"name": "trunc", "pkg": "./trunc", "search_cases": 60000},
+        {"name": "tmpldata", "pkg": "./tmpldata", "search_cases": 15000},
     ],
     "rule": "",
     "assumptions": [],
